@@ -37,10 +37,24 @@ class Facts:
         hi = r[1] if base[1] is None else (base[1] if r[1] is None else min(base[1], r[1]))
         return (lo, hi)
 
-    def simplify(self, p):
+    def simplify(self, p, depth=0):
         if not self.known:
             return p
-        return p.subst(self.known)
+        p = p.subst(self.known)
+        if depth < 2:
+            # comparison atoms whose own polynomial mentions decided atoms are re-evaluated
+            sub = {}
+            for a in p.atoms():
+                if a[0] in ("ge", "eq"):
+                    inner = atom_pred_poly(a)
+                    if any(x in self.known for x in inner.atoms()):
+                        from poly import ge0, eq0
+                        ni = self.simplify(inner, depth + 1)
+                        sub[a] = ge0(ni, self) if a[0] == "ge" else eq0(ni, self)
+            if sub:
+                p = p.subst(sub)
+                p = p.subst(self.known)
+        return p
 
     # ------------------------------------------------------------ assume
     def assume(self, p, val=1):
@@ -78,6 +92,9 @@ class Facts:
         # 1 - (sum of positive terms) == 1  => each term 0
         if val == 1 and p.terms.get((), 0) == 1 and all(c < 0 for m, c in p.terms.items() if m != ()):
             return self._assume(ONE - p, 0)
+        for (q, v2) in self.other:
+            if (q == p and v2 != val) or (q == ONE - p and v2 == val):
+                return False
         self.other.append((p, val))
         return True
 
